@@ -506,8 +506,8 @@ Lemma reserve_rehash_spec t a :
 Proof.
   intros Hso Hnd Hlen Hcap. unfold reserve_rehash, abs.
   destruct (N.eqb_spec (next_capacity (len t + a)) 0) as [H0|H0].
-  - apply next_capacity_0 in H0.
-    assert (Hv : vals (data t) = []) by (destruct (vals (data t)); [reflexivity | cbn in Hlen; lia]).
+  - apply (proj1 (next_capacity_0 _)) in H0.
+    assert (Hv : vals (data t) = []) by (apply length_zero_iff_nil; lia).
     eexists. split; [reflexivity|]. split; [|split].
     + constructor; cbn [data len free size length vals flat_map nfree filter].
       * left. reflexivity.
@@ -559,7 +559,7 @@ Proof.
   destruct (N.ltb_spec (free t) (a + sizeN t / RATIO_D * (RATIO_D - RATIO_N))) as [Hlt|Hge].
   - destruct (reserve_rehash_spec t a (ti_status t HT) (ti_nodup t HT) (ti_len t HT)
                 (Hfit eq_refl)) as [t' [H1 [H2 [H3 H4]]]].
-    exists t'. repeat split; try assumption.
+    exists t'. split; [exact H1|]. split; [exact H2|]. split; [exact H3|].
     destruct H4 as [[H4 H5]|H4]; [left; split; [lia | exact H5] | right; exact H4].
   - exists t. split; [reflexivity|]. split; [exact HT|]. split; [apply Permutation_refl|].
     rewrite spare_eq in Hge. unfold sizeN in Hge.
